@@ -345,6 +345,9 @@ func TestC15_GCRace(t *testing.T) {
 				s.LevelSizeMultiplier = 2
 				s.BaseTableSize = 1 << 11
 				s.MemTableSize = 1 << 15
+				// fills stay inline (the tree really grows), the churned values go to the value log
+				s.ValueThreshold = 1024
+				s.VLogPercentile = 0
 			}},
 		nontrivial: func(s Stats, p Program) bool { return s.GCPauseOps > 0 },
 	})
